@@ -587,7 +587,7 @@ def method_bodies(cx, adt):
     return out
 
 
-def check_type(run, cx, cfg, adt):
+def check_type(run, cx, cfg, adt, only=None):
     short_adt = adt.rsplit('::', 1)[-1]
     specf = spec_bounded if adt == B else spec_fixed
     n_spec = n_generic = 0
@@ -596,6 +596,8 @@ def check_type(run, cx, cfg, adt):
         imp = b['impl']
         name = b['name']
         tr = imp.get('trait')
+        if only is not None and fn not in only:
+            continue
         if tr in DERIVED_OK:
             run.ok('rb.derived', fn, cfg, nontrivial=False)
             continue
@@ -641,7 +643,7 @@ def check_type(run, cx, cfg, adt):
     return n_spec, n_generic
 
 
-def check_forwarders(run, cx, cfg):
+def check_forwarders(run, cx, cfg, only=None):
     """Index / IndexMut / Extend / Drain / From / FromIterator are thin wrappers over the operations above"""
     rows = [
         ('<dasp_ring_buffer::Fixed<S> as core::ops::index::Index<usize>>::index', 'dasp_ring_buffer::Fixed::<S>::get', None),
@@ -651,6 +653,8 @@ def check_forwarders(run, cx, cfg):
         ("<dasp_ring_buffer::DrainBounded<'a, S> as core::iter::traits::iterator::Iterator>::next", 'dasp_ring_buffer::Bounded::<S>::pop', None),
     ]
     for fn, target, then in rows:
+        if only is not None and fn not in only:
+            continue
         body = cx.body(fn)
         if body is None:
             run.fail('rb.forwarder', fn, cfg, 'function not found')
@@ -669,6 +673,8 @@ def check_forwarders(run, cx, cfg):
                     ok = recv_ok and rest_ok and len(evs) == 2 and rp(evs[1]).endswith('Option::<T>::' + then) and evs[1]['args'][0] == evs[0]['result'] and unreborrow(ps[0]['ret']) == evs[1]['result']
         run.check(ok, 'rb.forwarder', fn, cfg, 'must forward to %s(self%s)%s: [%s]' % (target, ', index' if 'index' in fn else '', '.expect(..)' if then else '',
                                                                                      '; '.join(describe_path(p) for p in ps)), where=where(body))
+    if only is not None:
+        return
     # drain() hands out the buffer itself; size_hint / len of the drain report len()
     fn = 'dasp_ring_buffer::Bounded::<S>::drain'
     body = cx.body(fn)
@@ -791,6 +797,21 @@ def check_inventory(run, cx, cfg):
                 run.check(b['path'].startswith(covered_prefix), 'rb.unchecked-inventory', b['path'], '%s:%s' % (cfg, r.rsplit('::', 1)[-1]),
                           'raw element access %s in a function that the ring-buffer rules do not cover' % r, where=mirutil.where(b, t))
     run.floor('rb.unchecked-inventory', 'unchecked element accesses (%s)' % cfg, n, 6)
+
+
+def check_used(run, cx, cfg, roots, minimum):
+    """Re-establish, for another property, the ring-buffer obligations of exactly the ring-buffer functions that the
+    bodies in `roots` reach through the resolved call graph (filed under dep.rb.*)."""
+    from report import Prefixed
+    used = callee_closure(cx.facts, roots, CRATE)
+    pr = Prefixed(run, 'dep.')
+    ns = 0
+    for adt in (B, F):
+        a, b = check_type(pr, cx, cfg, adt, only=used)
+        ns += a
+    check_forwarders(pr, cx, cfg, only=used)
+    run.floor('dep.rb.refinement', 'specified ring-buffer method paths reached from this property\'s functions (%s)' % cfg, ns, minimum)
+    return sorted(used)
 
 
 def run(run, tier, loadcfg):
